@@ -7,9 +7,11 @@ EXTENDS Retain, Shapes, Json
 CONSTANTS N, MaxKids, WithOutside
 Ids == 0..(N-1)
 KidSeqs == UNION {[1..k -> Ids] : k \in 0..MaxKids}
-Sel(t, ks) == t + (IF Len(ks) >= 1 THEN ks[1] ELSE 0) + (IF Len(ks) >= 2 THEN 2 * ks[2] ELSE 0)
-RegOf(kids) == [p \in 1..N |-> WithId(ShapeBody(p-1, kids[p-1], Sel(p-1, kids[p-1])), p-1)]
-Init == \E kids \in [Ids -> KidSeqs] : \E k \in SUBSET (Ids \cup (IF WithOutside THEN {N} ELSE {})) : TInitWith(RegOf(kids), k)
+\* leaf nodes take their definition from a second family as well (salt = 1): unit type, empty enum, u256
+Sel(t, ks, salt) == t + (IF Len(ks) >= 1 THEN ks[1] ELSE 0) + (IF Len(ks) >= 2 THEN 2 * ks[2] ELSE 0) + (IF Len(ks) = 0 THEN 3 * salt ELSE 0)
+RegOfS(kids, salt) == [p \in 1..N |-> WithId(ShapeBody(p-1, kids[p-1], Sel(p-1, kids[p-1], salt)), p-1)]
+RegOf(kids) == RegOfS(kids, 0)
+Init == \E kids \in [Ids -> KidSeqs] : \E salt \in 0..1 : (salt = 1 => \E i \in Ids : kids[i] = <<>>) /\ \E k \in SUBSET (Ids \cup (IF WithOutside THEN {N} ELSE {})) : TInitWith(RegOfS(kids, salt), k)
 Spec == Init /\ [][RNext]_tvars /\ WF_tvars(RNext)
 Pairs(m) == SetToSeq({<<i, m[i]>> : i \in DOMAIN m})
 Emit == Done => PrintT(<<"REPLAY", ToJson([old |-> orig, keep |-> [i \in 1..N |-> (i-1) \in keep], outside |-> N \in keep, map |-> Pairs(rmap), new |-> newT])>>)
